@@ -2,14 +2,14 @@ SPECIFICATION Spec
 CONSTANTS
   CfgNames = {"wts", "mix3"}
   LibVers = {0, 1, 2}
-  Fams = {4, 6}
+  Fams = {4}
   NSel = 2
   Mode = "proc"
   ProcSeedKs = {0, 1, 2, 3}
   RNG = "local"
   AddrBytes = "fill"
   NetBase = "masked"
-  DerivedMode = "once"
+  DerivedMode = "lazy-unsynchronised"
 VIEW view
-INVARIANTS TypeOK DerivedSound Contained WellFormed RandPortFromSubnet Pure NoSpuriousError
+INVARIANTS Pure
 CHECK_DEADLOCK FALSE
